@@ -48,6 +48,28 @@ func runC01(r *ev.Run) {
 		}
 		nOps := 10 + rng.IntN(70)
 		removals, flushes, nonEmpty := 0, 0, 0
+		// every tenth case starts from a LARGE index whose stored length sits next to a power of two (scan loops that
+		// are unrolled, chunked or parallelised above a size threshold lose their remainder there); the history that
+		// follows moves the length across the neighbouring residues one step at a time
+		bulk := 0
+		if ci%10 == 7 {
+			bulk = []int{255, 256, 257, 258, 259, 511, 513, 1022, 1025, 2047, 2050}[rng.IntN(11)]
+			if dim > 17 {
+				bulk = min(bulk, 513)
+			}
+			nOps = 8 + rng.IntN(12)
+			for i := 0; i < bulk; i++ {
+				id, v := ids.next(), vg.fresh()
+				if err := idx.Add(*comet.NewVectorNodeWithID(id, cloneF32(v))); err != nil {
+					r.ViolationAt("history", ci, "flat.add-error", fmt.Sprintf("bulk Add(%d) failed: %v", id, err), nil)
+					return
+				}
+				m.add(id, v)
+			}
+			hist = append(hist, histOp{Op: fmt.Sprintf("bulk-add x%d", bulk)})
+			r.Count("cases:large-index", 1)
+			r.Count("ops:add", int64(bulk))
+		}
 		probe := func() {
 			nq := 2 + rng.IntN(3)
 			for qi := 0; qi < nq; qi++ {
@@ -81,6 +103,9 @@ func runC01(r *ev.Run) {
 				}
 				r.Count("probes:complete", 1)
 			}
+		}
+		if bulk > 0 {
+			probe()
 		}
 		for op := 0; op < nOps; op++ {
 			c := rng.IntN(10)
